@@ -15,7 +15,7 @@ turns a deadlock of the harness into a harness error).
 import sys
 import threading
 
-from . import env
+from . import env, seams
 
 RUN_OUT = 10 ** 12
 
@@ -53,6 +53,17 @@ class _Worker(threading.Thread):
         if event == 'line':
             il = self.il
             il.events[self.index] += 1
+            kill = il.kill_at.get(self.index)
+            if kill is not None and il.events[self.index] > kill \
+                    and il.killed.get(self.index) is None \
+                    and frame.f_lineno not in seams.line_tracer._with_lines(
+                        frame.f_code):
+                # this caller crashes here (KeyboardInterrupt / MemoryError
+                # like), the other one goes on
+                site = (f'{frame.f_code.co_filename[len(env.REPO) + 1:]}'
+                        f':{frame.f_lineno}')
+                il.killed[self.index] = site
+                raise seams.SimulatedInterrupt(site)
             il.budget -= 1
             if il.budget <= 0:
                 other = il.workers[1 - self.index]
@@ -70,7 +81,11 @@ class _Worker(threading.Thread):
 
 
 class Interleaver:
-    def __init__(self, schedule, first=0, timeout=120.0):
+    def __init__(self, schedule, first=0, timeout=120.0, kill_at=None):
+        # kill_at: {caller index: number of line events after which that
+        # caller is interrupted}
+        self.kill_at = {int(k): int(v) for k, v in (kill_at or {}).items()}
+        self.killed = {}
         self.schedule = [max(1, int(q)) for q in schedule]
         self.first = int(first) % 2
         self.timeout = timeout
